@@ -593,7 +593,19 @@ pub fn corrupt(rng: &mut Rng, msg: &[u8]) -> (Vec<u8>, &'static str) {
         v.push(b'A');
     }
     let pos = rng.usize(v.len());
-    match rng.usize(14) {
+    match rng.usize(15) {
+        14 => {
+            // an expression holding what 488.2 7.7.7.2 excludes: quoted text (also with separators and parentheses
+            // between the quotes), nested parentheses, `;` - put in a unit of its own in front of the message
+            let e: &[u8] = *rng.pick(&[
+                &b"(@'a',1)"[..], b"(@\"MOD:A\",2)", b"(@1,'x')", b"('a')", b"(\"a\")", b"(@\"1);QX (2\")", b"(@'1,2',3)", b"(@'a''b')", b"(1;2)", b"((1))", b"(@(1))", b"(@1,(2))", b"(@'a;b')", b"(@\"a)b\")", b"(1,'')",
+            ]);
+            let mut w = b"QX ".to_vec();
+            w.extend_from_slice(e);
+            w.push(b';');
+            w.extend_from_slice(&v);
+            (w, "excluded-text-inside-expression")
+        }
         0 => {
             // over-long identifier: stretch an alphanumeric run to 13+
             if let Some(p) = v.iter().position(|c| c.is_ascii_alphabetic()) {
